@@ -95,6 +95,19 @@ def _indexing(ctx, cfg):
         j = size - 1 - c
         tot = tot + z3.ZeroExt(1, z3.If(z3.Extract(j, j, k) == 1, z3.BitVecVal(1 << j, size), z3.BitVecVal(0, size)))
     ctx.z3("lemma/sum_c bit_(size-1-c)(k) * 2^(size-1-c) == k (symbolic k)[size=%d]" % size, [], tot == z3.ZeroExt(1, k))
+    if size <= 10:
+        # history: a caller may modify the tensor it was given (e.g. sample(..., initial_state=space, overwrite=True));
+        # the next request, from this or any other model, still gets the expansion
+        first = st.generate_hilbert_space(size)
+        first.mul_(2.0).sub_(1.0)
+        again = st.generate_hilbert_space(size)
+        other = _state().generate_hilbert_space(size)
+        ctx.holds("generate_hilbert_space/a space modified by its caller does not leak into later requests[size=%d]" % size,
+                  bool(np.array_equal(again.numpy(), ((np.arange(D)[:, None] >> np.arange(size - 1, -1, -1)[None, :]) & 1).astype(float)))
+                  and torch.equal(again, other) and again.data_ptr() != first.data_ptr())
+        v1 = st.subspace_vector(D - 1, size)
+        v1.zero_()
+        ctx.holds("subspace_vector/likewise[size=%d]" % size, bool((st.subspace_vector(D - 1, size) == 1).all()))
     st2 = _state(size if size <= 6 else 2)
     if size <= 6:
         ctx.holds("generate_hilbert_space/default size is num_visible[size=%d]" % size, torch.equal(st2.generate_hilbert_space(), space))
